@@ -75,6 +75,17 @@ def feval(t, atom):
                         'builtins.str': str, 'numpy.abs': abs}[fn[1]](x)
             except Exception:
                 return UNKNOWN
+        if fn[0] == 'g' and fn[1] == 'builtins.range' and 1 <= len(t[2]) <= 3 and not t[3]:
+            vals = [feval(a, atom) for a in t[2]]
+            if any(v is UNKNOWN or not isinstance(v, int) for v in vals) or (len(vals) == 3 and vals[2] == 0):
+                return UNKNOWN
+            r = range(*vals)
+            return list(r) if len(r) <= 4096 else UNKNOWN
+        if fn[0] == 'g' and fn[1] in ('builtins.list', 'builtins.tuple', 'builtins.sorted') and len(t[2]) == 1 and not t[3]:
+            x = feval(t[2][0], atom)
+            if x is UNKNOWN or not isinstance(x, (list, tuple)):
+                return UNKNOWN
+            return sorted(x) if fn[1] == 'builtins.sorted' else list(x)
         # x.astype(bool|int)
         if fn[0] == 'attr' and fn[2] == 'astype' and len(t[2]) == 1:
             x = feval(fn[1], atom)
